@@ -64,6 +64,9 @@ func (c *Canon) Term(t engine.Term) J {
 		}
 		return []J{"i", float64(t)}
 	case engine.Float:
+		if k := float64(t) * 2; k == float64(int64(k)) && k > -1e6 && k < 1e6 {
+			return []J{"f", k}
+		}
 		return []J{"n", strconv.FormatFloat(float64(t), 'g', -1, 64) + "f"}
 	case engine.Compound:
 		f := t.Functor().String()
@@ -124,6 +127,12 @@ func RenderWith(t J, vname func(int) string) string {
 			return "(" + strconv.Itoa(n) + ")"
 		}
 		return strconv.Itoa(n)
+	case "f":
+		s := strconv.FormatFloat(a[1].(float64)/2, 'f', 1, 64)
+		if strings.HasPrefix(s, "-") {
+			return "(" + s + ")"
+		}
+		return s
 	case "n":
 		s := strings.TrimSuffix(a[1].(string), "f")
 		if strings.HasPrefix(s, "-") {
